@@ -797,6 +797,39 @@ class Rewriter:
         self.note('let v = src.into_iter().map(|x| e).collect(); -> push loop', n)
         return code
 
+    # ---- R7c: `let NAME: f64 = SRC.iter().map(|P| E).sum();` -> accumulation loop with the (uninterpreted) float addition;
+    #           `(A - B).abs() OP literal` -> vx::f64_absdiff_OP(A, B, literal)   (A, B places; float arithmetic stays abstract)
+    def float_sums(self, code):
+        n = 0
+        while True:
+            m = mask(code)
+            mm = re.search(r'(?<![A-Za-z0-9_])let\s+([a-z_][a-z0-9_]*)\s*:\s*f64\s*=\s*([a-z_][a-z0-9_]*(?:\s*\.\s*[a-z_][a-z0-9_]*)*?)\s*\.\s*iter\s*\(\s*\)\s*\.\s*map\s*\(\s*\|', m)
+            if not mm:
+                break
+            bar1 = mm.end() - 1
+            bar2 = m.index('|', bar1 + 1)
+            op = m.rfind('(', 0, bar1 + 1)
+            cp = match_close(m, op)
+            tail = re.match(r'\s*\.\s*sum\s*(::\s*<\s*f64\s*>)?\s*\(\s*\)\s*;', m[cp + 1:])
+            if not tail:
+                break
+            name, src = mm.group(1), re.sub(r'\s+', '', mm.group(2))
+            param = code[bar1 + 1:bar2].strip()
+            body = code[bar2 + 1:cp].strip()
+            rep = 'let mut %s: f64 = 0.0; for %s in %s.iter() { %s = vx::f64_add(%s, %s); }' % (name, param, src, name, name, body)
+            code = code[:mm.start()] + rep + code[cp + 1 + tail.end():]
+            n += 1
+        self.note('let s: f64 = v.iter().map(|x| e).sum(); -> accumulation loop (vx::f64_add)', n)
+        k = 0
+        ops = {'<': 'lt', '>': 'gt', '>=': 'ge', '<=': 'le'}
+        def rep_abs(mo):
+            nonlocal k
+            k += 1
+            return 'vx::f64_absdiff_%s(%s, %s, %s)' % (ops[mo.group(3)], mo.group(1), mo.group(2), mo.group(4))
+        code = re.sub(r'\(\s*([A-Za-z_][A-Za-z0-9_.]*)\s*-\s*([A-Za-z_][A-Za-z0-9_.]*)\s*\)\s*\.\s*abs\s*\(\s*\)\s*(<=|>=|<|>)\s*([0-9]+\.[0-9]+)', rep_abs, code)
+        self.note('(a - b).abs() OP literal -> vx::f64_absdiff_OP(a, b, literal)', k)
+        return code
+
     # ---- R7: while let
     def while_let(self, code):
         n = 0
@@ -1306,6 +1339,7 @@ class Rewriter:
         code = self.let_chains(code)
         code = self.local_const_strs(code)
         code = self.local_const_slices(code)
+        code = self.float_sums(code)
         code = self.map_collect_loops(code)
         code = self.opt_or_else(code)
         if not opts.get('no_while_let'):
